@@ -120,3 +120,45 @@ PROPS["C03"] = {
     "level_text": "seeded search over multi-login, multi-browser message mis-delivery (state <-> cookie pairings) and completion orders",
     "assumptions": COMMON_ASSUMPTIONS + ["'both cookies under one name' asserts the safety direction only; an edited redirect part with intact nonce is judged 'either' (C06 re-validates it)"],
 }
+
+PROPS["C05"] = {
+    "level": "exploration",
+    "quick_runs": 1200, "quick_budget_s": 150, "thorough_budget_s": 600,
+    "rule": "one run = one world (code-challenge method none/S256/plain x skip-nonce x csrf-per-request x encode-state x store) + 2-5 sequential and overlapping logins "
+            "in one browser, each completed under a seeded IdP nonce behaviour {honest, another login's nonce, empty, absent, unhashed-looking, the raw nonce, replay of an "
+            "earlier ID token, hash of the state nonce}; the FakeIdP checks code_verifier against the challenge recorded for that code (RFC 7636, independent implementation); "
+            "oracles: session => honest nonce (checking on); every authorization request has challenge+method, challenge derived from the login's verifier, verifier 43-128 "
+            "unreserved characters, never repeated within the run or the worker's batch, presented at redemption; raw state nonce / OIDC nonce / S256 verifier (read by "
+            "decrypting the CSRF cookie with the known secret) never appear raw, hex or base64 in any response; non-trivial = at least one login completed; distinct = event hash",
+    "level_text": "seeded search over overlapping login histories x Byzantine IdP nonce behaviours x PKCE configurations",
+    "assumptions": COMMON_ASSUMPTIONS,
+}
+
+PROPS["C04"] = {
+    "level": "exploration",
+    "quick_runs": 800, "quick_budget_s": 150, "thorough_budget_s": 600,
+    "rule": "one run = one world (keys via discovery / static JWKS URL / public-key file, audience claim aud or azp, extra audience, e-mail claim, groups claim, "
+            "allow-unverified-email, store) + 12-23 ID tokens minted by a Byzantine FakeIdP from orthogonal knobs (signing key: right / second published / foreign / "
+            "alg none / HS256 keyed with the public key / foreign key under a published kid; iss: right / other / suffix / prefix / case; audience: client / list with / "
+            "extra / list without / other / prefix / number / absent; exp: future / past / just past / boundary; email_verified: true / absent / false / string; claim "
+            "values incl. Unicode, single-string groups, missing claims), each driven through one of the three entry paths (code redemption, refresh of an aged session, "
+            "Authorization: Bearer); should_accept is computed from the construction parameters; oracles: session <=> should_accept, upstream identity == the token's "
+            "configured claims, profile endpoint (which answers with different values) only for claims the token lacks; non-trivial = at least one token accepted; "
+            "distinct = distinct world key + event hash",
+    "level_text": "seeded search over Byzantine IdP token minting x verifier configurations x three entry paths",
+    "assumptions": COMMON_ASSUMPTIONS + ["exp exactly at 'now' and non-boolean email_verified are judged 'either'"],
+}
+
+PROPS["C01"] = {
+    "level": "exploration",
+    "quick_runs": 600, "quick_budget_s": 150, "thorough_budget_s": 600,
+    "rule": "one run = one world (store, proxy prefix, 0-8 skip-auth routes / legacy regexes incl. method-qualified and negated, 0-4 trusted networks, preflight, bearer "
+            "acceptance, htpasswd (+group), e-mail domain rules, allowed groups, force-json-errors, api routes, 1-2 upstreams, a foreign deployment with another secret) populated "
+            "through real flows (logins of authorised and unauthorised users, sign-outs, eviction, clock jumps past refresh / lifetime) + 40-99 requests drawn from 33 paths "
+            "(upstream paths, the proxy's endpoints, look-alikes of the prefix) x 10 methods x credential state {none, session live / signed out / evicted / aged / tampered / "
+            "foreign secret / CSRF value under session name, bearer valid / expired / wrong audience / foreign key / alg none / garbage / as basic user, basic valid / wrong / unknown, "
+            "two at once} x 10 peer addresses; oracle = reference model (cred_ok, bypass) vs upstream log, 202, userinfo body, response class; "
+            "non-trivial = a valid credential was exercised without bypass; distinct = distinct world key + event hash",
+    "level_text": "seeded search over credential histories x clock x store state x bypass configurations, observed at the upstream",
+    "assumptions": COMMON_ASSUMPTIONS + ["two simultaneous credentials and the boundary second of the lifetime are judged 'either'; 301 path normalisation by the router counts as 'not served'"],
+}
